@@ -1,7 +1,7 @@
 from common import WORLD_TB, WORLD_ASSUME, SCEN_RULE
 
 PROP = {
-    "suites": ["scn-struct", "scn-mixed"],
+    "suites": ["scn-directed", "scn-struct", "scn-mixed"],
     "lean_modules": ["Lc.Props.C09"],
     "leanchecker": True,
     "trusted_base": WORLD_TB,
